@@ -21,6 +21,8 @@ import (
 	"sync"
 	"time"
 
+	"github.com/alicebob/miniredis/v2"
+
 	"tunnox-core/internal/cloud/constants"
 	"tunnox-core/internal/cloud/managers"
 	"tunnox-core/internal/cloud/models"
@@ -29,6 +31,7 @@ import (
 	"tunnox-core/internal/core/storage"
 	"tunnox-core/internal/core/storage/hybrid"
 	"tunnox-core/internal/core/storage/memory"
+	rstore "tunnox-core/internal/core/storage/redis"
 	"tunnox-core/internal/httpservice"
 	"tunnox-core/internal/httpservice/modules/domainproxy"
 )
@@ -98,6 +101,7 @@ type caseOut struct {
 	Lists     [][]int    `json:"lists"` // [client, ids...]
 	Guards    []int      `json:"guards"`
 	Next      int        `json:"next"`
+	NextTTL   bool       `json:"next_ttl"` // the counter key exists and carries a deadline
 	Viol      []viol     `json:"viol"`
 	Abandoned string     `json:"abandoned"` // non-empty: the schedule could not be replayed (reason); nothing is compared
 	SplitIncr bool       `json:"split_incr"`
@@ -413,6 +417,14 @@ func (r *runState) claimant(id, name string) int64 {
 	return -1
 }
 
+// expireIfDeadline plays "more than the key's remaining lifetime passes" on the real memory store
+func expireIfDeadline(st *memory.Storage, key string) {
+	if d, err := st.GetExpiration(key); err == nil && d > 0 {
+		_ = st.SetExpiration(key, time.Nanosecond)
+		time.Sleep(2 * time.Millisecond)
+	}
+}
+
 func refExtract(host string) string { // independent statement of "strip one :port suffix"
 	if i := strings.LastIndexByte(host, ':'); i >= 0 {
 		return host[:i]
@@ -678,10 +690,10 @@ func runSched(c caseIn) *caseOut {
 					}
 					results[i] = append(results[i], routedRes(pm, err))
 				case "X":
-					// the counter key disappears: what the 24h TTL memory.Storage.IncrBy puts on a new counter does (one gated step)
+					// the clock passes every deadline of the counter key (one gated step): the key vanishes iff it carries one
+					// (the store gives a counter created by IncrBy the 24 h default data TTL and never refreshes it)
 					st.gate()
-					_ = under.SetExpiration(repos.KeyHTTPDomainNextID, time.Nanosecond)
-					time.Sleep(2 * time.Millisecond)
+					expireIfDeadline(under, repos.KeyHTTPDomainNextID)
 					results[i] = append(results[i], []int{4})
 				}
 			}
@@ -798,6 +810,9 @@ func runSched(c caseIn) *caseOut {
 		case k == repos.KeyHTTPDomainNextID:
 			out.Next, _ = strconv.Atoi(v)
 		}
+	}
+	if d, err := under.GetExpiration(repos.KeyHTTPDomainNextID); err == nil && d > 0 {
+		out.NextTTL = true
 	}
 	sort.Slice(out.Recs, func(a, b int) bool { return out.Recs[a].ID < out.Recs[b].ID })
 	sort.Slice(out.Lists, func(a, b int) bool { return out.Lists[a][0] < out.Lists[b][0] })
@@ -945,6 +960,81 @@ func runNodes(c caseIn) *caseOut {
 	return out
 }
 
+// the id counter across a day on every backend: create a (client 1); more than the default data TTL passes; create b
+// (client 2); a must still route to client 1.  memory / hybrid: the key is expired iff it carries a deadline;
+// redis.Storage over miniredis: the virtual clock is advanced by 25 h.
+func runBackends(c caseIn) *caseOut {
+	out := &caseOut{Results: [][][]int{}, Sched: []int{}, Idx: [][2]string{}, Recs: []recOut{}, Lists: [][]int{}, Guards: []int{}, Finals: [][]int{}, Viol: []viol{}}
+	bases := []string{"tunnox.net"}
+	type backend struct {
+		name string
+		st   storage.Storage
+		day  func()
+	}
+	ctx, cancel := context.WithCancel(context.Background())
+	defer cancel()
+	var bs []backend
+	m1 := memory.New(ctx)
+	bs = append(bs, backend{"memory.Storage", m1, func() { expireIfDeadline(m1, repos.KeyHTTPDomainNextID) }})
+	local, shared := memory.New(ctx), memory.New(ctx)
+	bs = append(bs, backend{"hybrid.Storage (local + shared memory tiers)", hybrid.NewWithSharedCache(ctx, local, shared, nil, nil), func() {
+		expireIfDeadline(local, repos.KeyHTTPDomainNextID)
+		expireIfDeadline(shared, repos.KeyHTTPDomainNextID)
+	}})
+	if mr, err := miniredis.Run(); err == nil {
+		defer mr.Close()
+		if rs, err := rstore.New(ctx, &rstore.Config{Addr: mr.Addr(), PoolSize: 2}); err == nil {
+			bs = append(bs, backend{"redis.Storage (miniredis)", rs, func() { mr.FastForward(25 * time.Hour) }})
+			mr2, _ := miniredis.Run()
+			if mr2 != nil {
+				defer mr2.Close()
+				if rs2, err := rstore.New(ctx, &rstore.Config{Addr: mr2.Addr(), PoolSize: 2}); err == nil {
+					bs = append(bs, backend{"hybrid.Storage (shared tier = redis.Storage on miniredis)", hybrid.NewWithSharedCache(ctx, memory.New(ctx), rs2, nil, nil), func() {
+						// only the counter: the hybrid store caches records for an hour by design
+						if ttl := mr2.TTL(repos.KeyHTTPDomainNextID); ttl > 0 {
+							mr2.Del(repos.KeyHTTPDomainNextID)
+						}
+					}})
+				}
+			}
+		} else {
+			out.Abandoned = "redis storage: " + err.Error()
+		}
+	} else {
+		out.Abandoned = "miniredis: " + err.Error()
+	}
+	for _, b := range bs {
+		repo := repos.NewHTTPDomainMappingRepository(repos.NewRepository(b.st), bases)
+		mod := newModule(ctx, repo, nil, nil, bases)
+		a, errA := repo.CreateMapping(ctx, 1, "alpha", "tunnox.net", "h11", 11)
+		if errA != nil {
+			out.Viol = append(out.Viol, viol{"create-fails", fmt.Sprintf("%s: CreateMapping fails: %v", b.name, errA)})
+			continue
+		}
+		b.day()
+		bb, errB := repo.CreateMapping(ctx, 2, "beta", "tunnox.net", "h22", 22)
+		if errB != nil {
+			out.Viol = append(out.Viol, viol{"create-fails", fmt.Sprintf("%s: second CreateMapping fails: %v", b.name, errB)})
+			continue
+		}
+		if a.ID == bb.ID {
+			out.Viol = append(out.Viol, viol{"duplicate-mapping-id", fmt.Sprintf("%s: alpha.tunnox.net (client 1) was created as %s; a day later beta.tunnox.net (client 2) is created as %s again", b.name, a.ID, bb.ID)})
+		}
+		pm, err := domainproxy.VerifLookup(mod, "alpha.tunnox.net")
+		if err == nil && pm.TargetClientID != 1 {
+			out.Viol = append(out.Viol, viol{"routed-to-non-claimant", fmt.Sprintf("%s: alpha.tunnox.net (client 1, %s) now routes to client %d target port %d", b.name, a.ID, pm.TargetClientID, pm.TargetPort)})
+		}
+		if err != nil {
+			out.Viol = append(out.Viol, viol{"live-create-not-routed", fmt.Sprintf("%s: alpha.tunnox.net (client 1, %s) no longer resolves: %v", b.name, a.ID, err)})
+		}
+		c3, errC := repo.CreateMapping(ctx, 3, "gamma", "tunnox.net", "h33", 33)
+		if errC == nil && (c3.ID == a.ID || c3.ID == bb.ID) {
+			out.Viol = append(out.Viol, viol{"duplicate-mapping-id", fmt.Sprintf("%s: third create drew %s again", b.name, c3.ID)})
+		}
+	}
+	return out
+}
+
 // an unsupported base domain is refused before any storage call
 func runBase(c caseIn) *caseOut {
 	out := &caseOut{Results: [][][]int{}, Sched: []int{}, Idx: [][2]string{}, Recs: []recOut{}, Lists: [][]int{}, Guards: []int{}, Finals: [][]int{}, Viol: []viol{}}
@@ -972,6 +1062,8 @@ func runCase(raw json.RawMessage) interface{} {
 		return runNodes(c)
 	case "base":
 		return runBase(c)
+	case "backends":
+		return runBackends(c)
 	}
 	return runSched(c)
 }
@@ -1029,6 +1121,19 @@ func deleteIsGuarded() bool {
 	return true
 }
 
+// counterNeverExpires: after a CreateMapping on the default store, does the id counter key carry no deadline,
+// and is it created by a SetNX that precedes Incr?
+func counterNeverExpires() bool {
+	ctx, cancel := context.WithCancel(context.Background())
+	defer cancel()
+	cc := &callCounter{Storage: memory.New(ctx)}
+	repo := repos.NewHTTPDomainMappingRepository(repos.NewRepository(cc), nil)
+	_, err := repo.CreateMapping(ctx, 1, "probe", "tunnox.net", "h1", 1)
+	must(err)
+	d, err := cc.Storage.GetExpiration(repos.KeyHTTPDomainNextID)
+	return err == nil && d == 0 && len(cc.calls) > 0 && cc.calls[0] == "SetNX "+repos.KeyHTTPDomainNextID
+}
+
 var hostTable = []string{"a.tunnox.net", "a.tunnox.net:80", "A.TUNNOX.NET", "[::1]", "[::1]:80", "a.tunnox.net:", "a.tunnox.net.", "a.tunnox.net.:80", ":", "",
 	"::", "a:b:c", "a.tunnox.net:80:90", ":80", "[fe80::1%eth0]:8080", "a.tunnox.net\x00:1", "\xff:\xfe"}
 
@@ -1064,6 +1169,7 @@ func gen() {
 	fmt.Printf("Definition memory_store_has_Incr_and_SetNX : bool := %v.\n", memCounter && memCAS)
 	fmt.Printf("Definition hybrid_incr_is_get_then_set : bool := %v.\n", hybridIncrIsGetThenSet())
 	fmt.Printf("Definition delete_is_guarded : bool := %v.\n", deleteIsGuarded())
+	fmt.Printf("Definition counter_never_expires : bool := %v.\n", counterNeverExpires())
 	fmt.Printf("Definition counter_ttl_seconds : N := %d%%N.\n", int64(constants.DefaultDataTTL/time.Second))
 	cfg := hybrid.DefaultConfig()
 	has := func(l []string, p string) bool {
